@@ -44,7 +44,8 @@ NP_WRITE_FIRST = {"copyto", "put", "place", "putmask", "fill_diagonal", "put_alo
 NP_ALIAS = {"squeeze", "transpose", "asarray", "ascontiguousarray", "asfortranarray", "atleast_2d", "ravel", "reshape", "asanyarray"}
 METHOD_FRESH = {"copy", "tolist", "any", "all", "sum", "max", "min", "mean", "format", "lower", "keys", "isnull", "issubset", "basename", "dirname",
                 "expanduser", "splitext", "default_rng", "permutation", "norm", "det", "transform", "predict", "catch_warnings", "filterwarnings", "warn",
-                "dot", "strip", "split", "join", "startswith", "endswith", "count", "index"}
+                "dot", "strip", "split", "join", "startswith", "endswith", "count", "index",
+                "isfile", "isdir", "exists", "abspath", "realpath", "spec_from_file_location", "module_from_spec", "exec_module", "import_module"}
 METHOD_ALIAS = {"conj", "reshape", "to_numpy", "get", "fit", "squeeze", "ravel", "view", "transpose", "values", "dropna", "items", "astype", "flatten"}   # dropna(inplace=...) is rejected below
 METHOD_WRITE = {"append", "insert", "extend", "sort", "fill", "setflags", "update", "setdefault", "pop", "remove", "clear", "resize", "put", "itemset"}
 VIEW_ATTRS = {"T", "real", "imag", "values", "flat", "loc", "iloc", "path"}
